@@ -962,6 +962,12 @@ func (e *Exec) runBlocks(fr *Frame) Value {
 					} else {
 						next, prevK = b.Succs[1], 1
 					}
+				} else if ex, lok := e.tryLoopIfEnabled(fr, b, c); lok {
+					next = ex
+					prevK = 0
+					if b.Succs[1] == ex {
+						prevK = 1
+					}
 				} else if j, rv, isRet, ok := e.tryRegion(fr, b, c); ok {
 					if isRet {
 						e.runDefers(fr)
@@ -1154,15 +1160,22 @@ func predIndex(from, to *ssa.BasicBlock, k int) int {
 	return -1
 }
 
-// tryRegion if-converts the acyclic single-entry region headed by the If at the end of b
-// (symbolic condition c): the blocks admitted are pure, all their predecessors lie in the
-// region, and the region leaves either through one join block or only through returns.
-// Blocks are evaluated once, in topological order, under their path guard; phis become ite.
-func (e *Exec) tryRegion(fr *Frame, b *ssa.BasicBlock, c Bool) (join *ssa.BasicBlock, ret Value, isRet, ok bool) {
+type retLeaf struct {
+	guard Bool
+	vals  []Value
+}
+
+// regionEval evaluates, once and under path guards, the acyclic region of pure blocks entered
+// through `heads` (edges leaving block b).  Blocks are admitted when they are pure and all
+// their predecessors are b or admitted blocks; `stop` blocks are never admitted (exits).
+// It returns the guarded edges arriving at each exit block and the guarded return leaves.
+// ok=false means the shape is not a region (nothing has been evaluated in that case unless
+// a phi merge failed, which only leaves harmless env entries behind).
+func (e *Exec) regionEval(fr *Frame, b *ssa.BasicBlock, heads []regionEdge, stop map[*ssa.BasicBlock]bool) (ok bool, exits map[*ssa.BasicBlock][]regionEdge, rets []retLeaf) {
 	inR := map[*ssa.BasicBlock]bool{}
 	var order []*ssa.BasicBlock
 	admissible := func(x *ssa.BasicBlock) bool {
-		if x == b || inR[x] || len(x.Instrs) == 0 {
+		if x == b || inR[x] || stop[x] || len(x.Instrs) == 0 {
 			return false
 		}
 		for _, p := range x.Preds {
@@ -1186,7 +1199,10 @@ func (e *Exec) tryRegion(fr *Frame, b *ssa.BasicBlock, c Bool) (join *ssa.BasicB
 	}
 	for changed := true; changed && len(order) < 64; {
 		changed = false
-		cands := append([]*ssa.BasicBlock{}, b.Succs...)
+		var cands []*ssa.BasicBlock
+		for _, h := range heads {
+			cands = append(cands, h.from.Succs[h.k])
+		}
 		for _, r := range order {
 			cands = append(cands, r.Succs...)
 		}
@@ -1198,104 +1214,40 @@ func (e *Exec) tryRegion(fr *Frame, b *ssa.BasicBlock, c Bool) (join *ssa.BasicB
 			}
 		}
 	}
-	if len(order) == 0 || len(order) >= 64 {
-		return nil, nil, false, false
-	}
-	// exits
-	nRet := 0
-	check := func(x *ssa.BasicBlock) bool {
-		if inR[x] {
-			return true
-		}
-		if join == nil {
-			join = x
-		}
-		return join == x
-	}
-	for _, s := range b.Succs {
-		if !check(s) {
-			return nil, nil, false, false
-		}
-	}
-	for _, r := range order {
-		if _, isR := r.Instrs[len(r.Instrs)-1].(*ssa.Return); isR {
-			nRet++
-		}
-		for _, s := range r.Succs {
-			if !check(s) {
-				if regionLog {
-					fmt.Fprintf(os.Stderr, "  region: two exits in %s from block %d\n", fr.fn.Name(), b.Index)
-				}
-				return nil, nil, false, false
-			}
-		}
-	}
-	if nRet > 0 && join != nil {
-		if regionLog {
-			fmt.Fprintf(os.Stderr, "  region: mixed return/join in %s block %d\n", fr.fn.Name(), b.Index)
-		}
-		return nil, nil, false, false
+	if len(order) >= 64 {
+		return false, nil, nil
 	}
 	outer := e.guard
 	defer func() { e.guard = outer }()
 	incoming := map[*ssa.BasicBlock][]regionEdge{}
+	exits = map[*ssa.BasicBlock][]regionEdge{}
 	addEdge := func(from *ssa.BasicBlock, k int, g Bool) {
 		to := from.Succs[k]
-		incoming[to] = append(incoming[to], regionEdge{from, k, g})
-	}
-	addEdge(b, 0, c)
-	addEdge(b, 1, bNot(c))
-	mergePhis := func(x *ssa.BasicBlock) bool {
-		eds := incoming[x]
-		var phis []*ssa.Phi
-		var vals []Value
-		for _, ins := range x.Instrs {
-			ph, isPhi := ins.(*ssa.Phi)
-			if !isPhi {
-				break
-			}
-			var acc Value
-			for k := len(eds) - 1; k >= 0; k-- {
-				ed := eds[k]
-				v := e.get(fr, ph.Edges[predIndex(ed.from, x, ed.k)])
-				if k == len(eds)-1 {
-					acc = v
-					continue
-				}
-				m, mok := e.merge(ed.guard, v, acc)
-				if !mok {
-					if regionLog {
-						fmt.Fprintf(os.Stderr, "  region: cannot merge %T with %T at phi %s in %s\n", v, acc, ph.Name(), fr.fn.Name())
-					}
-					return false
-				}
-				acc = m
-			}
-			phis = append(phis, ph)
-			vals = append(vals, acc)
+		if inR[to] {
+			incoming[to] = append(incoming[to], regionEdge{from, k, g})
+		} else {
+			exits[to] = append(exits[to], regionEdge{from, k, g})
 		}
-		for i, ph := range phis {
-			fr.env[ph] = vals[i]
-		}
-		return true
 	}
-	type retLeaf struct {
-		guard Bool
-		vals  []Value
+	for _, h := range heads {
+		addEdge(h.from, h.k, h.guard)
 	}
-	var rets []retLeaf
 	for _, x := range order {
 		eds := incoming[x]
 		if len(eds) == 0 {
-			continue // unreachable within the region
+			continue
 		}
 		g := eds[0].guard
 		for _, ed := range eds[1:] {
 			g = bOr(g, ed.guard)
 		}
 		g = e.nmB(g)
-		if !mergePhis(x) {
-			return nil, nil, false, false
+		vals, mok := e.mergePhis(fr, x, eds)
+		if !mok {
+			return false, nil, nil
+		}
+		for ph, v := range vals {
+			fr.env[ph] = v
 		}
 		full := g
 		if outer != nil {
@@ -1324,8 +1276,54 @@ func (e *Exec) tryRegion(fr *Frame, b *ssa.BasicBlock, c Bool) (join *ssa.BasicB
 			rets = append(rets, lf)
 		}
 	}
-	e.guard = outer
-	if nRet > 0 {
+	return true, exits, rets
+}
+
+// mergePhis computes, for block x entered through the guarded edges eds, the ite-merged value
+// of each of its phis (without writing the environment).
+func (e *Exec) mergePhis(fr *Frame, x *ssa.BasicBlock, eds []regionEdge) (map[*ssa.Phi]Value, bool) {
+	out := map[*ssa.Phi]Value{}
+	for _, ins := range x.Instrs {
+		ph, isPhi := ins.(*ssa.Phi)
+		if !isPhi {
+			break
+		}
+		var acc Value
+		for k := len(eds) - 1; k >= 0; k-- {
+			ed := eds[k]
+			v := e.get(fr, ph.Edges[predIndex(ed.from, x, ed.k)])
+			if k == len(eds)-1 {
+				acc = v
+				continue
+			}
+			m, mok := e.merge(ed.guard, v, acc)
+			if !mok {
+				if regionLog {
+					fmt.Fprintf(os.Stderr, "  region: cannot merge %T with %T at phi %s in %s\n", v, acc, ph.Name(), fr.fn.Name())
+				}
+				return nil, false
+			}
+			acc = m
+		}
+		out[ph] = acc
+	}
+	return out, true
+}
+
+// tryRegion if-converts the acyclic single-entry region headed by the If at the end of b
+// (symbolic condition c): the region leaves either through one join block or only through
+// returns.  Phis of the join (or the function result) become ite terms.
+func (e *Exec) tryRegion(fr *Frame, b *ssa.BasicBlock, c Bool) (join *ssa.BasicBlock, ret Value, isRet, ok bool) {
+	// cheap shape pre-check so that nothing is evaluated when the region cannot be converted
+	shapeOK, stop := e.regionShapeOK(b)
+	if !shapeOK {
+		return nil, nil, false, false
+	}
+	rok, exits, rets := e.regionEval(fr, b, []regionEdge{{b, 0, c}, {b, 1, bNot(c)}}, stop)
+	if !rok || len(exits) > 1 || (len(exits) == 1 && len(rets) > 0) {
+		return nil, nil, false, false
+	}
+	if len(exits) == 0 {
 		if len(rets) == 0 {
 			return nil, nil, false, false
 		}
@@ -1358,10 +1356,304 @@ func (e *Exec) tryRegion(fr *Frame, b *ssa.BasicBlock, c Bool) (join *ssa.BasicB
 		}
 		return nil, Tuple(merged), true, true
 	}
-	if join == nil || !mergePhis(join) {
-		return nil, nil, false, false
+	for j, eds := range exits {
+		vals, mok := e.mergePhis(fr, j, eds)
+		if !mok {
+			return nil, nil, false, false
+		}
+		for ph, v := range vals {
+			fr.env[ph] = v
+		}
+		return j, nil, false, true
 	}
-	return join, nil, false, true
+	return nil, nil, false, false
+}
+
+// regionShapeOK: static check (no evaluation) that the If at the end of b heads a region with a
+// single exit block or only returns.  The greedy region may swallow its own join (when the join
+// is itself a pure block); in that case the first admitted block that works as a forced stop
+// (the region then leaves only through it) is chosen and returned.
+func (e *Exec) regionShapeOK(b *ssa.BasicBlock) (bool, map[*ssa.BasicBlock]bool) {
+	grow := func(stop *ssa.BasicBlock) (order []*ssa.BasicBlock, exits map[*ssa.BasicBlock]bool, nRet int) {
+		inR := map[*ssa.BasicBlock]bool{}
+		adm := func(x *ssa.BasicBlock) bool {
+			if x == b || x == stop || inR[x] || len(x.Instrs) == 0 {
+				return false
+			}
+			for _, p := range x.Preds {
+				if p != b && !inR[p] {
+					return false
+				}
+			}
+			for _, ins := range x.Instrs[:len(x.Instrs)-1] {
+				if _, isPhi := ins.(*ssa.Phi); isPhi {
+					continue
+				}
+				if !e.pureInstr(ins) {
+					return false
+				}
+			}
+			switch x.Instrs[len(x.Instrs)-1].(type) {
+			case *ssa.Jump, *ssa.If, *ssa.Return:
+				return true
+			}
+			return false
+		}
+		for changed := true; changed && len(order) < 64; {
+			changed = false
+			cands := append([]*ssa.BasicBlock{}, b.Succs...)
+			for _, r := range order {
+				cands = append(cands, r.Succs...)
+			}
+			for _, x := range cands {
+				if adm(x) {
+					inR[x] = true
+					order = append(order, x)
+					changed = true
+				}
+			}
+		}
+		exits = map[*ssa.BasicBlock]bool{}
+		for _, s := range b.Succs {
+			if !inR[s] {
+				exits[s] = true
+			}
+		}
+		for _, r := range order {
+			if _, isR := r.Instrs[len(r.Instrs)-1].(*ssa.Return); isR {
+				nRet++
+			}
+			for _, s := range r.Succs {
+				if !inR[s] {
+					exits[s] = true
+				}
+			}
+		}
+		return
+	}
+	order, exits, nRet := grow(nil)
+	if len(order) == 0 || len(order) >= 64 {
+		return false, nil
+	}
+	if (len(exits) == 1 && nRet == 0) || (len(exits) == 0 && nRet > 0) {
+		return true, nil
+	}
+	for _, j := range order {
+		o2, ex2, nr2 := grow(j)
+		if len(o2) > 0 && nr2 == 0 && len(ex2) == 1 && ex2[j] {
+			return true, map[*ssa.BasicBlock]bool{j: true}
+		}
+	}
+	if regionLog {
+		fmt.Fprintf(os.Stderr, "  region: %d exits / %d returns in %s from block %d\n", len(exits), nRet, b.Parent().Name(), b.Index)
+	}
+	return false, nil
+}
+
+// tryLoop merges a loop whose header H ends in an If with symbolic condition: the body (entered
+// through one successor) is a pure region that only flows back to H or breaks to the exit block E
+// (H's other successor) without carrying values of its own.  The loop is unrolled under an
+// accumulating "still running" guard until the solver shows the guard infeasible; the header's
+// phis become ite chains.  One path instead of one per exit iteration.
+func (e *Exec) tryLoop(fr *Frame, H *ssa.BasicBlock, c Bool) (exit *ssa.BasicBlock, ok bool) {
+	bodyK := -1
+	for k := 0; k < 2; k++ {
+		if e.loopShapeOK(H, k) {
+			bodyK = k
+			break
+		}
+	}
+	if bodyK < 0 {
+		return nil, false
+	}
+	E := H.Succs[1-bodyK]
+	// header instructions after the phis must be pure: they are re-evaluated every round
+	nphi := 0
+	for _, ins := range H.Instrs {
+		if _, isPhi := ins.(*ssa.Phi); isPhi {
+			nphi++
+			continue
+		}
+		break
+	}
+	for _, ins := range H.Instrs[nphi : len(H.Instrs)-1] {
+		if !e.pureInstr(ins) {
+			return nil, false
+		}
+	}
+	ifIns := H.Instrs[len(H.Instrs)-1].(*ssa.If)
+	active := mkBool(true)
+	cond := c
+	outer := e.guard
+	defer func() { e.guard = outer }()
+	for iter := 0; ; iter++ {
+		cc := cond
+		if bodyK == 1 {
+			cc = bNot(cond)
+		}
+		act := e.nmB(bAnd(active, cc))
+		if act.IsC && !act.C {
+			break
+		}
+		if !act.IsC && !e.feasibleCached(act) {
+			break
+		}
+		if iter >= e.unwind {
+			panic(pathEnd{"unwind", fmt.Sprintf("merged loop bound %d exceeded in %s", e.unwind, fr.fn.Name())})
+		}
+		rok, exits, rets := e.regionEval(fr, H, []regionEdge{{H, bodyK, act}}, map[*ssa.BasicBlock]bool{E: true})
+		if !rok || len(rets) > 0 {
+			if iter == 0 {
+				return nil, false
+			}
+			e.unsupported("loop merging failed after the first iteration in %s", fr.fn.Name())
+		}
+		back := exits[H]
+		for x := range exits {
+			if x != H && x != E {
+				if iter == 0 {
+					return nil, false
+				}
+				e.unsupported("loop merging: unexpected exit in %s", fr.fn.Name())
+			}
+		}
+		if len(back) == 0 {
+			// the body never returns to the header under this guard: loop ends
+			active = mkBool(false)
+			break
+		}
+		vals, mok := e.mergePhis(fr, H, back)
+		if !mok {
+			if iter == 0 {
+				return nil, false
+			}
+			e.unsupported("loop merging: phi merge failed in %s", fr.fn.Name())
+		}
+		cont := back[0].guard
+		for _, ed := range back[1:] {
+			cont = bOr(cont, ed.guard)
+		}
+		cont = e.nmB(cont)
+		for ph, v := range vals {
+			m, mok2 := e.merge(cont, v, fr.env[ph])
+			if !mok2 {
+				if iter == 0 {
+					return nil, false
+				}
+				e.unsupported("loop merging: cannot merge loop-carried %T in %s", v, fr.fn.Name())
+			}
+			fr.env[ph] = m
+		}
+		active = cont
+		// re-evaluate the header under the (outer) guard
+		e.guard = outer
+		for _, ins := range H.Instrs[nphi : len(H.Instrs)-1] {
+			e.instrs++
+			e.step(fr, ins)
+		}
+		cond = e.get(fr, ifIns.Cond).(Bool)
+	}
+	return E, true
+}
+
+func (e *Exec) tryLoopIfEnabled(fr *Frame, H *ssa.BasicBlock, c Bool) (*ssa.BasicBlock, bool) {
+	if e.cases["nomerge"] == 1 {
+		return nil, false
+	}
+	return e.tryLoop(fr, H, c)
+}
+
+// feasibleCached: satisfiability of pc ∧ c, remembered in the decision trace.
+func (e *Exec) feasibleCached(c Bool) bool {
+	if e.pos < len(e.prefix) {
+		d := e.prefix[e.pos]
+		e.pos++
+		e.trace = append(e.trace, d)
+		return d.Val
+	}
+	e.pos++
+	r := e.check(c.T()) != RUnsat
+	e.trace = append(e.trace, Decision{Val: r, Forced: true})
+	return r
+}
+
+// loopShapeOK: H.Succs[k] heads a pure region whose only exits are H (continue) and the other
+// successor E of H (break), and E's phis take the same SSA value on every break edge as on the
+// edge from H (a break is then indistinguishable from the header test failing).
+func (e *Exec) loopShapeOK(H *ssa.BasicBlock, k int) bool {
+	S := H.Succs[k]
+	E := H.Succs[1-k]
+	if S == H || S == E {
+		return false
+	}
+	inR := map[*ssa.BasicBlock]bool{}
+	var order []*ssa.BasicBlock
+	adm := func(x *ssa.BasicBlock) bool {
+		if x == H || x == E || inR[x] || len(x.Instrs) == 0 {
+			return false
+		}
+		for _, p := range x.Preds {
+			if p != H && !inR[p] {
+				return false
+			}
+		}
+		for _, ins := range x.Instrs[:len(x.Instrs)-1] {
+			if _, isPhi := ins.(*ssa.Phi); isPhi {
+				continue
+			}
+			if !e.pureInstr(ins) {
+				return false
+			}
+		}
+		switch x.Instrs[len(x.Instrs)-1].(type) {
+		case *ssa.Jump, *ssa.If:
+			return true
+		}
+		return false
+	}
+	for changed := true; changed && len(order) < 64; {
+		changed = false
+		cands := []*ssa.BasicBlock{S}
+		for _, r := range order {
+			cands = append(cands, r.Succs...)
+		}
+		for _, x := range cands {
+			if adm(x) {
+				inR[x] = true
+				order = append(order, x)
+				changed = true
+			}
+		}
+	}
+	if !inR[S] || len(order) >= 64 {
+		return false
+	}
+	backs := 0
+	for _, r := range order {
+		for si, s := range r.Succs {
+			switch {
+			case inR[s]:
+			case s == H:
+				backs++
+			case s == E:
+				// break edge: E's phis must not distinguish it from the edge H -> E
+				hi := predIndex(H, E, 1-k)
+				bi := predIndex(r, E, si)
+				for _, ins := range E.Instrs {
+					ph, isPhi := ins.(*ssa.Phi)
+					if !isPhi {
+						break
+					}
+					if ph.Edges[hi] != ph.Edges[bi] {
+						return false
+					}
+				}
+			default:
+				return false
+			}
+		}
+	}
+	return backs > 0
 }
 
 func sameValue(a, b Value) bool {
